@@ -28,6 +28,11 @@ pub enum ItOp {
     /// `min()` / `max()` over the (item, priority) pairs that remain; ends the program
     RestMin,
     RestMax,
+    /// `collect::<Vec<_>>()`; ends the program
+    RestCollect,
+    /// `rev().for_each(..)` (internal iteration from the back, `rfold`) where the iterator is
+    /// double ended, else `for_each`; ends the program
+    RestRevEach,
 }
 
 #[derive(Clone, Copy, Debug, PartialEq, Eq, Serialize, Deserialize)]
